@@ -268,7 +268,10 @@ func init() {
 				kpre := ABin("^=", AKey(), pre)
 				n := Field{E: ACall("int", AVal()), Nm: "n"}
 				var st *Stmt
-				kind := r.Intn(10)
+				kind := r.Intn(11)
+				if kind == 10 {
+					kind = 5
+				}
 				if kind >= 6 { // writer: needs a region nobody else uses
 					if writerRegion[reg] || readerRegion[reg] {
 						kind = r.Intn(6)
@@ -298,7 +301,12 @@ func init() {
 				case 4:
 					st = &Stmt{Kind: "select", Where: AIn(AKey(), AStr(fmt.Sprintf("r%02dk1", reg)), AStr(fmt.Sprintf("r%02dk4", reg)), AStr("nokey"))}
 				case 5:
-					st = &Stmt{Kind: "select", Fields: []Field{{E: AKey()}, {E: ACall("upper", AVal()), Nm: "u"}}, Where: ABin("&", kpre, ABin("~=", AName("u"), AStr("^[0-3]")))}
+					if r.Intn(2) == 0 {
+						// a different pattern per statement: any cache of compiled patterns is written concurrently
+						st = &Stmt{Kind: "select", Where: ABin("&", kpre, ABin("~=", AKey(), AStr(fmt.Sprintf("^r%02dk[0-%d]$", reg, 1+r.Intn(4)))))}
+					} else {
+						st = &Stmt{Kind: "select", Fields: []Field{{E: AKey()}, {E: ACall("upper", AVal()), Nm: "u"}}, Where: ABin("&", kpre, ABin("~=", AName("u"), AStr("^[0-3]")))}
+					}
 				case 6:
 					st = &Stmt{Kind: "put", Pairs: []PutPair{{AStr(fmt.Sprintf("r%02dnew", reg)), AStr("v")}, {AStr(fmt.Sprintf("r%02dk1", reg)), ACall("upper", ABin("+", AStr("x"), AKey()))}}}
 				case 7:
